@@ -1,4 +1,65 @@
-(* placeholder until proofs land *)
-From PV Require Import Model.AnnotationOps.
-Theorem C11_placeholder : True. Proof. exact I. Qed.
-Print Assumptions C11_placeholder.
+(* C11  Renaming labels or tracks and subsetting preserve structure exactly.
+   [getitem a s t] is annotation[s, t] (None = no such track); [map_get l mapping] is
+   mapping.get(l, l). Proved here: rename_labels (in place and on a copy) and subset. Tied by the
+   correspondence but not proved: rename_tracks, relabel_tracks and the generated mapping of
+   rename_labels(generator=...) (results compared exactly with the model for the three generator
+   kinds). Statements only. *)
+From PV Require Import Model.AnnotationOps Proofs.DictP Proofs.AnnotationInvP Proofs.RenameSubsetP.
+
+(* every track keeps its segment and name and gets mapping.get(label, label): applied once, simultaneously *)
+Theorem C11_rename_applies_mapping_once : forall a mapping s t,
+  getitem (rename_labels_inplace a mapping) s t = option_map (fun l => map_get l mapping) (getitem a s t).
+Proof. exact rename_getitem. Qed.
+Theorem C11_rename_changes_nothing_else : forall a mapping,
+  skeys (a_tracks (rename_labels_inplace a mapping)) = skeys (a_tracks a) /\
+  (forall s, get_tracks (rename_labels_inplace a mapping) s = get_tracks a s) /\
+  a_uri (rename_labels_inplace a mapping) = a_uri a /\ a_modality (rename_labels_inplace a mapping) = a_modality a.
+Proof. exact rename_keeps_segments_and_tracks. Qed.
+Theorem C11_swap_not_applied_twice : forall x y, x <> y ->
+  map_get x [(x, y); (y, x)] = y /\ map_get y [(x, y); (y, x)] = x /\
+  forall l, l <> x -> l <> y -> map_get l [(x, y); (y, x)] = l.
+Proof. exact rename_swap. Qed.
+Theorem C11_chain_not_applied_twice : forall x y z, x <> y ->
+  map_get x [(x, y); (y, z)] = y /\ map_get y [(x, y); (y, z)] = z.
+Proof. exact rename_chain. Qed.
+Theorem C11_rename_on_copy_gives_same_content : forall a mapping s t,
+  getitem (rename_labels_copy a mapping) s t = getitem (rename_labels_inplace a mapping) s t /\
+  a_uri (rename_labels_copy a mapping) = a_uri a /\ a_modality (rename_labels_copy a mapping) = a_modality a.
+Proof. exact rename_copy_same_result. Qed.
+(* in place: the caches stay coherent (the C02 invariant is preserved) *)
+Theorem C11_rename_in_place_keeps_views_fresh : forall eps a mapping,
+  AInv eps a -> AInv eps (rename_labels_inplace a mapping).
+Proof. exact AInv_rename. Qed.
+
+(* subset(L) keeps exactly the tracks whose label is in L, subset(L, invert=True) exactly the others *)
+Theorem C11_subset_exact : forall eps a labs inv s t, AInv eps a ->
+  getitem (subset_ann eps a labs inv) s t =
+  match getitem a s t with
+  | Some l => if xorb (name_in l labs) inv then Some l else None
+  | None => None
+  end.
+Proof. exact subset_getitem. Qed.
+Theorem C11_subset_partition : forall eps a labs s t l, AInv eps a -> getitem a s t = Some l ->
+  (getitem (subset_ann eps a labs false) s t = Some l /\ getitem (subset_ann eps a labs true) s t = None) \/
+  (getitem (subset_ann eps a labs false) s t = None /\ getitem (subset_ann eps a labs true) s t = Some l).
+Proof. exact subset_partition. Qed.
+Theorem C11_subset_adds_nothing : forall eps a labs inv s t l, AInv eps a ->
+  getitem (subset_ann eps a labs inv) s t = Some l -> getitem a s t = Some l.
+Proof. exact subset_adds_nothing. Qed.
+
+Example C11_nonvacuous :
+  let a := ann_of 0 None None [((0, 4), NStr "x", NStr "a"); ((0, 4), NStr "y", NStr "b"); ((2, 6), NStr "_", NStr "a")] in
+  itertracks (rename_labels_inplace a [(NStr "a", NStr "b"); (NStr "b", NStr "a")])
+    = [((0, 4), NStr "x", NStr "b"); ((0, 4), NStr "y", NStr "a"); ((2, 6), NStr "_", NStr "b")] /\
+  itertracks (subset_ann 0 a [NStr "a"; NStr "zz"] true) = [((0, 4), NStr "y", NStr "b")].
+Proof. vm_compute. repeat split. Qed.
+
+Print Assumptions C11_rename_applies_mapping_once.
+Print Assumptions C11_rename_changes_nothing_else.
+Print Assumptions C11_swap_not_applied_twice.
+Print Assumptions C11_chain_not_applied_twice.
+Print Assumptions C11_rename_on_copy_gives_same_content.
+Print Assumptions C11_rename_in_place_keeps_views_fresh.
+Print Assumptions C11_subset_exact.
+Print Assumptions C11_subset_partition.
+Print Assumptions C11_subset_adds_nothing.
